@@ -181,7 +181,9 @@ def r_cks_reader(model, rep, rule_id="R-CKS-DEFASSIGN", format_only=False):
     it = e.loops[0][1]
     el = ("elem", it, e.loops[0][0])
     key = e.target[2]
-    ok = it == ("call", ("attr", IN, "items"), (("attr", S, "_section"),), ()) \
+    # (the section name as the attribute, or as the constant a class-level ``_section = "checksums"`` folds to)
+    ok = it in (("call", ("attr", IN, "items"), (("attr", S, "_section"),), ()),
+                ("call", ("attr", IN, "items"), (("const", "checksums"),), ())) \
         and key == ("call", ("attr", S, "_fix_path"), (("idx", el, 0),), ())
     rep.ob(rule_id, "Checksums.deserialize:keyed-by-option", ok, site=cx.site(e.lineno),
            msg="" if ok else "every option of [checksums] must be stored under its own (fixed) path: %s" % T.show(key)[:120])
